@@ -288,7 +288,7 @@ def ground_check(smt, timeout_ms=20000, rounds=3):
         if stats['terms'] > 600:
             break
     model = None
-    if r == z3.sat:
+    if r == z3.sat and s is not None:
         m = s.model()
         model = {}
         for d in m.decls():
@@ -296,5 +296,6 @@ def ground_check(smt, timeout_ms=20000, rounds=3):
                 model[d.name()] = str(m[d])
         model = dict(sorted(model.items())[:80])
         model['__apps__'] = _app_values(m, cur)
-    reason = s.reason_unknown() if r == z3.unknown else ''
+    reason = (s.reason_unknown() if s is not None else 'budget exhausted') \
+        if r == z3.unknown else ''
     return str(r), time.time() - t0, reason, model, stats
